@@ -391,6 +391,14 @@ def run(tier):
             if failed and not clean and len(ev.cov["samples"]) < 3:
                 ev.sample({"profile": m["profile"], "recipe": m["recipe"], "exit": m["exit"], "failed_conjuncts": failed, "e2fsck_problems": m["problems"][:4]})
         bad = set(res_s["bad"])
+        # re-run before reporting (DESIGN.md section 8 rule 5): a failing element is executed and judged by TLC once more
+        flaky = confirm(b, basedir, work, [(with_state[i]["meta"]["id"], i) for i in sorted(bad)][:80], jobs, _case, lambda j: (j[0], j[1], j[2], True))
+        if flaky:
+            ev.cov["not_reproduced_on_rerun"] = len(flaky)
+            st["unknown"] += len(flaky)
+            bad -= flaky
+            res_s["bad"] = sorted(bad)
+            st["clean_inconsistent"] -= len(flaky)
         for i in sorted(bad):
             m = with_state[i]["meta"]
             unk, failed = res_s["evals"][i]
@@ -437,6 +445,26 @@ def run(tier):
         return vd.finish()
     finally:
         shutil.rmtree(work, ignore_errors=True)
+
+
+def confirm(b, basedir, work, items, jobs, casefn, mkjob):
+    """items = [(job id, index)]: run those universe elements again in this process and let TLC judge the new lines;
+    -> set of indices whose failure did NOT repeat"""
+    if not items:
+        return set()
+    if not _G:
+        _init(b, basedir, work)
+    jmap = {j[0]: j for j in jobs}
+    lines, idx = [], []
+    for jid, i in items:
+        x = casefn(mkjob(jmap[jid]))
+        if "line" in x:
+            lines.append(x["line"]); idx.append(i)
+    res = tlc_lines(lines, work, "cf", STATE_CHUNK)
+    if res["broken"]:
+        die_broken("TLC failed while confirming: %s" % res["broken"][0])
+    still = set(idx[k] for k in res["bad"]) | set(idx[k] for k in res["knowndev"])
+    return set(idx) - still
 
 
 def strip_csum(name):
